@@ -42,8 +42,8 @@ type ixEvent struct {
 }
 
 type ixModel struct {
-	txs     []*ixTx     // insertion order
-	events  []*ixEvent  // insertion order
+	txs     []*ixTx    // insertion order
+	events  []*ixEvent // insertion order
 	blocks  map[uint64]*lib.BlockHeader
 	qcs     map[uint64]*lib.QuorumCertificate
 	cps     map[uint64]map[uint64][]byte // chain -> height -> hash
@@ -201,8 +201,9 @@ func (m *ixModel) expectedKeys() map[string]string {
 }
 
 func scanIndexer(s *store.Store) ([][]byte, error) {
-	vs := store.NewVersionedStore(s.DB().NewSnapshot(), nil, ^uint64(0))
-	tx := store.NewTxn(vs, nil, store.VerifIndexerPrefix(), false, false, true)
+	vs := store.NewVersionedStore(s.DB().NewSnapshot(), nil, ^uint64(0)) // closed by tx.Close()
+	// no version seeking: the scan must see every key, also one that is a byte prefix of another
+	tx := store.NewTxn(vs, nil, store.VerifIndexerPrefix(), false, false, false)
 	defer tx.Close()
 	it, err := tx.Iterator(nil)
 	if err != nil {
